@@ -1,6 +1,6 @@
 --------------------------- MODULE MxFormulaBase ---------------------------
 (***************************************************************************)
-(* C20 -- formula capture (modelx/core/formula.py, cells.py:895-932).      *)
+(* C20 -- formula capture (modelx/core/formula.py, cells.py:907-944).      *)
 (*                                                                         *)
 (* This module holds everything that is a FUNCTION of its arguments:       *)
 (*   part 1  abstract sources: the grammar of layouts and the physical     *)
@@ -81,8 +81,8 @@ OrigDocs == 0..5
 OrigDocLen(dc) == IF dc = 0 THEN 0 ELSE IF dc = 3 THEN 3 ELSE 1
 
 \* documentation strings handed to set_doc: 11 plain, 12 two lines, 13 with ',
-\* 14 ending in ", 15 with the two characters \ n, 16 containing """
-NewDocs == 11..16
+\* 14 ending in ", 15 with the two characters \ n, 16 containing """, 17 ending in """
+NewDocs == 11..17
 NewDocLen(k) == IF k = 12 THEN 2 ELSE 1
 EscDoc == 25                     \* doc 15 after Python processed the escape
 NEWID == 900                     \* ids of the lines of a new docstring: 901, 902
@@ -253,7 +253,7 @@ IsOne(T)   == T[HdrIdx(T)].k \in OneKinds
 \* first statement of the body (normal bodies)
 FirstStmt(T) == Min({i \in DOMAIN T : i > HdrLast(T) /\ IsCode(T[i])})
 
-\* inspect.getsource (formula.py:325; inspect.BlockFinder): from the first decorator (or the
+\* inspect.getsource (formula.py:395; inspect.BlockFinder): from the first decorator (or the
 \* def) to the last logical line of the block; a comment belongs to the block when it is
 \* indented at least like the body; what precedes the first decorator does not.
 GetBlock(T) ==
@@ -272,7 +272,7 @@ GetBlock(T) ==
 MarginTW(T) == Min({T[i].col : i \in {j \in DOMAIN T : ~IsBlank(T[j])}})
 DedentTW(T) == [i \in DOMAIN T |-> IF IsBlank(T[i]) THEN T[i] ELSE [T[i] EXCEPT !.col = @ - MarginTW(T)]]
 
-\* formula.dedent (the repaired one): the margin is the indentation of the first statement
+\* formula.dedent (formula.py:102-136, the repaired one): the margin is the indentation of the first statement
 \* (first line that is neither blank nor a comment); it is taken from the lines that start
 \* with it; lines continuing a string literal are not touched
 InString(T, i) == T[i].k = "strB" \/ (T[i].k = "doc" /\ i > 1 /\ T[i - 1].k = "doc")
@@ -284,7 +284,7 @@ Dedent(T) ==
         IF IsBlank(T[i]) \/ ("KF3" \in Fixed /\ InString(T, i)) \/ T[i].col < Margin(T) THEN T[i]
         ELSE [T[i] EXCEPT !.col = @ - Margin(T)]]
 
-\* ast.parse of a def text (is_funcdef formula.py:100-113; compile :348): the def and its
+\* ast.parse of a def text (is_funcdef formula.py:139-152; compile :418): the def and its
 \* decorators must start in column 0; a one-line body into which a docstring was glued
 \* without a separator (d = -1) is not Python
 ParseErr(T) ==
@@ -293,28 +293,29 @@ ParseErr(T) ==
     ELSE IF \E i \in DOMAIN T : T[i].k \in OneKinds /\ T[i].d = -1 THEN "SyntaxError"
     ELSE ""
 
-\* remove_decorator (formula.py:131-148): the physical lines from the `@` of the first
+\* remove_decorator (formula.py:170-187): the physical lines from the `@` of the first
 \* decorator to the line of the token that follows the last decorator are cut -- whatever
 \* lies between two decorators goes with them; what precedes or follows stays
 RemoveDecorator(T) ==
     LET D == {i \in DOMAIN T : T[i].k \in DecoLineKinds}
     IN IF D = {} THEN T ELSE SubSeq(T, 1, Min(D) - 1) \o SubSeq(T, Max(D) + 1, Len(T))
 
-\* _init_from_funcdef (formula.py:337-353) on a text: [err, lines]
-\* (replace_funcname :151-176 changes the token after the first `def` only: lines are
+\* _init_from_funcdef (formula.py:407-423) on a text: [err, lines]
+\* (replace_funcname :190-215 changes the token after the first `def` only: lines are
 \*  unchanged, the name is part of the result record built by the caller)
 PipelineDef(T) ==
     IF ParseErr(Dedent(T)) # "" THEN [err |-> ParseErr(Dedent(T)), lines |-> <<>>]
     ELSE [err |-> "", lines |-> RemoveDecorator(Dedent(T))]
 
-\* extract_lambda_from_source / _from_func (formula.py:248-281): the characters from the
-\* `lambda` token to the last token of the lambda node; text forms were dedented first
-\* (:332), for objects the slice is taken from the file as it is (:266-276)
+\* extract_lambda_from_source / _from_func (formula.py:319-351, _get_lambda_text :296-316):
+\* the characters from the `lambda` token to the last token of the lambda node; text forms
+\* were dedented first (:402), for objects the slice is taken from the file as it is
 ExtractLambda(T) ==
     LET S == SelectSeq(T, LAMBDA l : l.k \in LamKinds)
     IN [i \in DOMAIN S |-> IF S[i].k = "lamA" THEN [S[i] EXCEPT !.col = 0] ELSE S[i]]
-\* _init_from_lambda (formula.py:355-370): exec("_lambdafunc = " + src) needs every line
-\* break inside src to be protected by src itself
+\* _init_from_lambda (formula.py:425-440): exec("_lambdafunc = " + src) needs every line
+\* break inside src to be protected by src itself (before the repair KF1 it was not when
+\* only the enclosing brackets allowed it; now such a break gets a backslash)
 LamExecErr(T) ==
     IF "KF1" \notin Fixed /\ \E i \in DOMAIN T : T[i].k = "lamB" /\ T[i].d = 0 THEN "SyntaxError" ELSE ""
 PipelineLam(lay, T) ==
@@ -347,37 +348,38 @@ CaptureFn(lay, T0, name) ==
          IN IF r.err # "" THEN Rejected(r.err)
             ELSE [ok |-> TRUE, err |-> "", islam |-> TRUE, name |-> name, lines |-> r.lines, doc |-> NoDoc]
 
-\* a new cells from formula.source of `cur` (a text: formula.py:327-335)
+\* a new cells from formula.source of `cur` (a text: formula.py:397-405)
 RecreateFn(cur) ==
     IF cur.islam
     THEN LET X == ExtractLambda(Dedent(cur.lines))
          IN IF LamExecErr(X) # "" THEN Rejected(LamExecErr(X)) ELSE [cur EXCEPT !.lines = X, !.doc = NoDoc]
     ELSE FormulaFromDefText(cur.lines, cur.name, cur.doc)
 
-\* on_rename (cells.py:914-932): Formula(self.formula, name=name) for a def, only
+\* on_rename (cells.py:921-944): Formula(self.formula, name=name) for a def, only
 \* func.__name__ for a lambda
 RenameFn(cur, new) ==
     IF cur.islam THEN [cur EXCEPT !.name = new]
     ELSE FormulaFromDefText(cur.lines, new, cur.doc)
 
-\* replace_docstring (formula.py:179-231) on a def text
+\* replace_docstring (formula.py:226-279) on a def text
 NewDocLines(k, ii, c) ==
     [j \in 1..NewDocLen(k) |-> [id |-> NEWID + j, k |-> "doc", col |-> IF j = 1 \/ ii THEN c ELSE 0, d |-> k]]
 ReplaceDocstring(T, k, ii) ==
     IF IsOne(T)
-    THEN \* :219-231 "single line": the docstring token is replaced in place, or the new one
+    THEN \* :266-279 "single line": the docstring token is replaced in place, or the new one
          \* is put directly in front of the first statement
          [T EXCEPT ![HdrIdx(T)].d = IF T[HdrIdx(T)].d = 0 /\ "KF4" \notin Fixed THEN -1 ELSE k]
-    ELSE \* :197-217: the text from the start of the first statement's line to the end of the
+    ELSE \* :244-264: the text from the start of the first statement's line to the end of the
          \* docstring token is replaced, or the new lines are put in front of that line
          LET s == FirstStmt(T)
              new == NewDocLines(k, ii, T[s].col)
          IN IF T[s].k = "doc" THEN SubSeq(T, 1, s - 1) \o new \o SubSeq(T, DocRun(T, s) + 1, Len(T))
             ELSE SubSeq(T, 1, s - 1) \o new \o SubSeq(T, s, Len(T))
-\* '"""' + docstr + '"""' (formula.py:194): nothing is escaped
-QuoteErr(k) == IF "KF5" \notin Fixed /\ k \in {14, 16} THEN "SyntaxError" ELSE ""
+\* _quote_docstring (formula.py:218-223; before the repair KF5: '"""' + docstr + '"""',
+\* nothing escaped)
+QuoteErr(k) == IF "KF5" \notin Fixed /\ k \in {14, 16, 17} THEN "SyntaxError" ELSE ""
 ReadBack(k) == IF "KF5" \notin Fixed /\ k = 15 THEN EscDoc ELSE k
-\* set_doc (cells.py:895-912)
+\* set_doc (cells.py:907-919)
 SetDocFn(cur, k, ii) ==
     IF cur.islam THEN [cur EXCEPT !.doc = [code |-> k, exact |-> TRUE, cont |-> 0]]
     ELSE LET T == ReplaceDocstring(cur.lines, k, ii)
@@ -469,7 +471,7 @@ P_RenameInert(lay, new, p, o) ==
     /\ o.vals = p.vals /\ o.params = p.params /\ o.doc = p.doc /\ o.islam = p.islam
 
 \* only the docstring changed, and cells.doc returns what was given (with insert_indents the
-\* following lines are indented like the body: documented, cells.py:550-598)
+\* following lines are indented like the body: documented, cells.py:550-600)
 P_DocInert(T0, k, code, ii, p, o) ==
     LET docIds == IdsOf(T0, {"doc"}) IN
     /\ NonDocLines(docIds, o.lines) = NonDocLines(docIds, p.lines)
@@ -492,7 +494,7 @@ KF_LamOuter(lay)   == ~IsDef(lay) /\ lay.ml = "outer"
 KF_Col0(lay, T0)      == IsDef(lay) /\ HasKind(T0, "c0cmt") /\ Ind(lay.ws) > 0
 KF_DedentStr(lay, T0) == IsDef(lay) /\ HasKind(T0, "strA") /\ Ind(lay.ws) > 0
 KF_OneLineDoc(cur) == cur.ok /\ ~cur.islam /\ IsOne(cur.lines) /\ DocCodeOf(cur.lines) = 0
-KF_DocQuote(k)     == k \in {14, 15, 16}
+KF_DocQuote(k)     == k \in {14, 15, 16, 17}
 
 -----------------------------------------------------------------------------
 (* part 5: the labels an observed (or projected) operation earns           *)
@@ -550,7 +552,7 @@ OpLabels(lay, T0, op, arg, cn, g, p, o) ==
                  \cup StateLabels(lay, T0, cn, ev, dv, o)
             ELSE Lab(P_Unchanged(p, o), "C20.DocInert")
                  \cup (IF lay.hdr = "one" /\ p.doc.code = 0 /\ o.err = "SyntaxError" THEN {KF4}
-                       ELSE IF arg.k \in {14, 16} /\ o.err = "SyntaxError" THEN {KF5}
+                       ELSE IF arg.k \in {14, 16, 17} /\ o.err = "SyntaxError" THEN {KF5}
                        ELSE {"C20.DocInert"})
 
 \* algorithm layer vs. observation (never a violation: DRIFT)
